@@ -23,6 +23,11 @@ fn const_cannot_clash_with_existing_names(
     if ctx
         .names
         .contains_any_locally_or_contains_extended_recursively(const_name.as_bare_name())
+        // a constant cannot co-exist with a variable of the same name, e.g. a SHARED `A%` seen from a SUB
+        || !ctx
+            .names
+            .find_name_or_shared_in_parent(const_name.as_bare_name())
+            .is_empty()
         || ctx.subs.contains_key(const_name.as_bare_name())
         || ctx.functions.contains_key(const_name.as_bare_name())
     {
